@@ -57,6 +57,13 @@ def run_case(cs, ctx):
     outdir = ge.fresh_outdir(ctx.workdir, 'c12')
     argv = ge.to_argv(v, outdir, rng)
     case = {'cs': cs, 'vector': v, 'argv': [a if a != outdir else '<outdir>' for a in argv]}
+    if cs % 25 == 9 and v['numinst'] >= 2 and v['n1'] < 100:
+        import os as _os
+        import shutil as _sh
+        _os.makedirs(_os.path.join(outdir, '1.txt'))        # 1.txt cannot be written: the first run dies half way
+        ge.run_generator(argv, cs ^ 0x99)
+        _sh.rmtree(_os.path.join(outdir, '1.txt'), ignore_errors=True)
+        ctx.cov('retry_after_a_run_that_died_half_way')
     res = ge.run_generator(argv, cs)
     ctx.cnt('generator_runs')
     if res['exit'] is not None or res['exc'] is not None:
